@@ -139,6 +139,76 @@ func FromGo(x interface{}) plan.Value {
 	return plan.Value{T: "go", S: fmt.Sprintf("%T", x)}
 }
 
+// RawValue converts an object with a node budget and cycle detection: safe on
+// anything a hostile script may have left in the globals.
+func RawValue(o tengo.Object) plan.Value {
+	w := &rawWalker{seen: map[tengo.Object]bool{}, budget: 5000}
+	return w.walk(o)
+}
+
+type rawWalker struct {
+	seen   map[tengo.Object]bool
+	budget int
+}
+
+func (w *rawWalker) walk(o tengo.Object) plan.Value {
+	w.budget--
+	if w.budget < 0 {
+		return plan.Value{T: "truncated"}
+	}
+	var kids []tengo.Object
+	var keys []string
+	t := ""
+	switch x := o.(type) {
+	case nil:
+		return plan.Value{T: "gonil"}
+	case *tengo.Array:
+		t, kids = "array", x.Value
+	case *tengo.ImmutableArray:
+		t, kids = "immarray", x.Value
+	case *tengo.Map:
+		t = "map"
+		for k := range x.Value {
+			keys = append(keys, k)
+		}
+		sort.Strings(keys)
+		for _, k := range keys {
+			kids = append(kids, x.Value[k])
+		}
+	case *tengo.ImmutableMap:
+		t = "immmap"
+		for k := range x.Value {
+			keys = append(keys, k)
+		}
+		sort.Strings(keys)
+		for _, k := range keys {
+			kids = append(kids, x.Value[k])
+		}
+	case *tengo.Error:
+		t, kids = "error", []tengo.Object{x.Value}
+	default:
+		return ObjToValue(o, 0)
+	}
+	if w.seen[o] {
+		return plan.Value{T: "cycle"}
+	}
+	w.seen[o] = true
+	defer delete(w.seen, o)
+	out := plan.Value{T: t}
+	if keys != nil {
+		out.M = map[string]plan.Value{}
+		for i, k := range keys {
+			out.M[k] = w.walk(kids[i])
+		}
+		return out
+	}
+	out.A = make([]plan.Value, 0, len(kids))
+	for _, k := range kids {
+		out.A = append(out.A, w.walk(k))
+	}
+	return out
+}
+
 // ObjToValue converts a tengo object structurally (used where the oracle needs
 // the tengo-side type, e.g. String vs Bytes lengths, immutability).
 func ObjToValue(o tengo.Object, depth int) plan.Value {
